@@ -20,14 +20,19 @@ class LogCollector(DataCollector):
         return super().collect_agent_statistics(time, agents)
 
 
+_tokens = [0]
+
+
 class LogAgent(Agent):
     def initialize(self):
+        _tokens[0] += 1
+        self.token = _tokens[0]          # identity of this agent object, independent of the id the model gave it
         for st in STATES:
             self.register_event_handler([st], "ping", self._on_ping)
             self.register_event_handler([st], "pong", self._on_ping)
 
     def _on_ping(self, event):
-        self.model.log.append(("handled", self.id, event.data, event.name, event.receiver_id))
+        self.model.log.append(("handled", self.id, event.data, event.name, event.receiver_id, self.token))
 
     def handle_events(self, time, sim_round, step):
         self.model.log.append(("handle", self.id, time))
@@ -96,7 +101,7 @@ class LogModel(Model):
         self.step_counter += 1
         self.log.append(("begin", time, sim_round, step, self.step_counter))
         self._ops("begin")
-        self.log.append(("agents", [a.id for a in self.agents]))
+        self.log.append(("agents", [a.id for a in self.agents], [getattr(a, "token", None) for a in self.agents]))
 
     def end_round(self, time, sim_round, step):
         self.log.append(("end", time, sim_round, step))
